@@ -44,7 +44,7 @@ fn gen_string(rng: &mut Rng) -> Vec<u8> {
 }
 
 pub fn run(ctx: &Ctx, rep: &mut Report) {
-    let total = ctx.universes(160, 4000);
+    let total = ctx.universes(1600, 40000);
     for uni in ctx.my_universes(total) {
         let mut rng = ctx.rng_for(uni);
         rep.begin_universe(uni);
